@@ -522,6 +522,7 @@ def run(chk):
     chk.assumptions = ["contract table transcribed from docs/language/builtins.md (DESIGN.md appendix A); what the documentation "
                        "does not determine is not judged (counted as unspecified)"]
     chk.floor = 5000
+    chk.rule += '; plus join with elements equal to the delimiter, arrays of large integers closer than the double spacing, strings with byte-order marks at the edges'
     jobs = []
     for name in PURE:
         jobs.append((name, []))
